@@ -410,7 +410,7 @@ def build_ops(S, rnd, thorough):
             ap = base(S["APReq"], rnd)
             ap["Ticket"] = ticket(et, kvno)
             ap["EncryptedAuthenticator"] = enc_data(et2, 0)
-            ops.append({"op": "apreq", "type": "APReq", "v": ap,
+            ops.append({"op": "apreq" if (i + r) % 3 else "apreq_verify", "type": "APReq", "v": ap,
                         "parts": [part(["Ticket", "EncPart"], "EncTicketPart", etp, et, 2, kvno),
                                   part(["EncryptedAuthenticator"], "Authenticator", base(S["Authenticator"], rnd, drop=0.4), et2, 11, 0, sk)]})
             kp = base(S["KRBPriv"], rnd)
